@@ -315,12 +315,20 @@ def _norm(id):
 def reply_for(verdict, variant):
     from slimta.smtp.reply import Reply
     if verdict == 'temp':
-        return Reply('450', '4.%d.0 temporary failure v%d' % (variant % 8,
-                                                            variant))
-    if verdict == 'perm':
-        return Reply('550', '5.%d.0 permanent failure v%d' % (variant % 8,
-                                                            variant))
-    return Reply('250', '2.0.0 accepted v%d' % variant)
+        r = Reply('450', '4.%d.0 temporary failure v%d' % (variant % 8,
+                                                         variant))
+    elif verdict == 'perm':
+        r = Reply('550', '5.%d.0 permanent failure v%d' % (variant % 8,
+                                                         variant))
+    else:
+        return Reply('250', '2.0.0 accepted v%d' % variant)
+    # as a network relay would: the reply knows which host gave it
+    # (odd variants), in either of the shapes relays use
+    if variant % 2:
+        r.address = ('mx%d.sim' % variant, 25) if variant % 4 == 1 \
+            else 'mx%d.sim' % variant
+        r.command = b'RCPT' if variant % 4 == 1 else None
+    return r
 
 
 def script_relay_class():
